@@ -44,3 +44,124 @@ func etMapWrite(k string) {
 	var m map[string]int64
 	m[k] = 1
 }
+
+// --- code without clauses: executed where it is called, loop clauses guessed ---
+
+// a deferred function literal that wipes a local buffer after the result has been computed
+func etWipeLocal(n int) (r int) {
+	buf := make([]byte, n)
+	defer func() {
+		for i := range buf {
+			buf[i] = 0
+		}
+	}()
+	r = len(buf)
+	return
+}
+
+// the same wipe on the CALLER's slice: a frame violation
+func etWipeArg(b []byte) int {
+	defer func() {
+		for i := range b {
+			b[i] = 0
+		}
+	}()
+	return len(b)
+}
+
+// a deferred literal changes the named result after the return statement has set it
+func etDeferResult(x int) (r int) {
+	defer func() { r = r + 1 }()
+	return x
+}
+
+// a function literal called in place that captures and updates a local
+func etCapture(x int) int {
+	y := x
+	func() { y = y + 2 }()
+	return y
+}
+
+// helper with a loop and no contract: the index must be shown in bounds from the guessed clauses
+func etFill(b []byte, v byte) {
+	for i := 0; i < len(b); i++ {
+		b[i] = v
+	}
+}
+
+func etUseFill(n int) int {
+	b := make([]byte, n)
+	etFill(b, 7)
+	return len(b)
+}
+
+// off-by-one in a helper without contract: the guessed clauses must not hide it
+func etFillOff(b []byte, v byte) {
+	for i := 0; i <= len(b); i++ {
+		b[i] = v
+	}
+}
+
+func etUseFillOff(n int) int {
+	b := make([]byte, n)
+	etFillOff(b, 7)
+	return len(b)
+}
+
+// a loop whose counter does not move towards its bound: no variant can be shown
+func etStuck(b []byte) {
+	for i := 0; i < len(b); {
+		b[i] = 0
+	}
+}
+
+func etUseStuck(n int) int {
+	b := make([]byte, n)
+	etStuck(b)
+	return len(b)
+}
+
+// down-counting helper
+func etFillDown(b []byte) {
+	for i := len(b) - 1; i >= 0; i-- {
+		b[i] = 1
+	}
+}
+
+func etUseFillDown(n int) int {
+	b := make([]byte, n)
+	etFillDown(b)
+	return len(b)
+}
+
+// --- local byte arrays ---
+
+func etArr(i int) byte {
+	var a [4]byte
+	a[1] = 7
+	return a[i]
+}
+
+func etArrOOB(i int) byte {
+	var a [4]byte
+	return a[i]
+}
+
+func etArrSlice() int {
+	var a [8]byte
+	s := a[2:5]
+	s[0] = 9
+	return int(a[2]) + len(s) + cap(s)
+}
+
+// arrays are values: the copy does not alias
+func etArrCopy() int {
+	var a [4]byte
+	b := a
+	b[0] = 1
+	return int(a[0])
+}
+
+func etAnd3(x int) int { return x & 3 }
+
+func etAndVar(x, y uint8) uint8 { return x & y }
